@@ -92,7 +92,7 @@ def build_harness(bin_name="harness", release=False):
 HARNESS_BIN_RELEASE = os.path.join(TARGET, "release", "harness")
 
 
-HYGIENE_RE = re.compile(r"\b(Admitted|admit|Axiom|Parameter|Conjecture|Hypothesis|Variable)\b|Unset Guard|bypass_check|type-in-type|Admit Obligations")
+HYGIENE_RE = re.compile(r"\b(Admitted|admit|Axiom|Axioms|Parameter|Parameters|Conjecture|Conjectures|Hypothesis|Hypotheses|Variable|Variables|Context)\b|Unset Guard|Unset Positivity|Unset Universe|bypass_check|type-in-type|impredicative-set|Admit Obligations")
 
 
 def strip_comments(text):
@@ -132,7 +132,7 @@ def hygiene():
                 m = HYGIENE_RE.search(line)
                 if m:
                     w = m.group(0)
-                    if w in ("Hypothesis", "Variable") and depth > 0:
+                    if w in ("Hypothesis", "Hypotheses", "Variable", "Variables", "Context") and depth > 0:
                         continue
                     bad.append("%s:%d: %s" % (os.path.relpath(p, VERIF), ln, line.strip()))
     return bad
